@@ -156,6 +156,11 @@ def run_item(item):
     # benefits after the priority checks never exceed the entitlement before them
     cap("arbeitsl_geld_2_m_bg<=vor_vorrang", col("arbeitsl_geld_2_m_bg"), col("arbeitsl_geld_2_vor_vorrang_m_bg"))
     cap("wohngeld_m_wthh<=anspruchshöhe", col("wohngeld_m_wthh"), col("wohngeld_anspruchshöhe_m_wthh"))
+    # a means-tested benefit never exceeds the assessed need (the benefit at zero income)
+    cap("arbeitsl_geld_2_vor_vorrang_m_bg<=assessed need", col("arbeitsl_geld_2_vor_vorrang_m_bg"), col("arbeitsl_geld_2_regelbedarf_m_bg"), tol=0.01)
+    if "_grunds_im_alter_mehrbedarf_schwerbeh_g_m_eg" in T.columns:
+        cap("grunds_im_alter_m_eg<=assessed need", col("grunds_im_alter_m_eg"),
+            col("arbeitsl_geld_2_regelbedarf_m_bg") + col("_grunds_im_alter_mehrbedarf_schwerbeh_g_m_eg"), tol=0.01)
     cap("kinderzuschl_m_bg<=nach_vermög_check", col("kinderzuschl_m_bg"), col("_kinderzuschl_nach_vermög_check_m_bg"))
     cap("kinderzuschl nach<=vor vermög_check", col("_kinderzuschl_nach_vermög_check_m_bg"), col("_kinderzuschl_vor_vermög_check_m_bg"))
     kmax = _get(params, "kinderzuschl", "maximum")
@@ -199,10 +204,6 @@ def run_item(item):
         zve = np.maximum(col("_zu_verst_eink_mit_kinderfreib_y_sn"), col("_zu_verst_eink_ohne_kinderfreib_y_sn") if "_zu_verst_eink_ohne_kinderfreib_y_sn" in T.columns else 0)
         cap("eink_st_y_sn<=top rate x taxable income", col("eink_st_y_sn"), top * np.maximum(zve, 0) + 1.0)
     res["observations"] = []
-    if "arbeitsl_geld_2_vor_vorrang_m_bg" in T.columns and "arbeitsl_geld_2_regelbedarf_m_bg" in T.columns:
-        over = (col("arbeitsl_geld_2_vor_vorrang_m_bg") > col("arbeitsl_geld_2_regelbedarf_m_bg") + 0.01).sum()
-        if over:
-            res["observations"].append(f"ALG II before the priority check exceeds the assessed need for {int(over)} persons (negative income)")
     res["sample"] = dict(date=item["date"], corner=corner, population=popgen.describe(df))
     return res
 
